@@ -78,7 +78,7 @@ type sthSpec struct {
 	version int
 	signer  *logT   // whose key signs
 	sigMode string  // good | flip | othersize
-	idMode  string  // absent | own | other | random
+	idMode  string  // absent | own | other | random | near
 	idOwner *logT   // for idMode own/other
 	form    string  // std | getsth | junk-cosig | spaced
 }
@@ -113,6 +113,11 @@ func (h *harness) buildSTH(s sthSpec) []byte {
 		}
 	case "random":
 		h.r.Read(sth.LogID[:])
+	case "near":
+		if s.idOwner.idHash != nil {
+			copy(sth.LogID[:], s.idOwner.idHash)
+		}
+		sth.LogID[h.r.Intn(32)] ^= 1 << uint(h.r.Intn(8))
 	}
 	sigB64, _ := sth.TreeHeadSignature.Base64String()
 	rootB64 := base64.StdEncoding.EncodeToString(sth.SHA256RootHash[:])
